@@ -7,6 +7,8 @@ COMMON_ASSUME = [
 ]
 
 TIERS = {
+    "C08": {"quick": {"runs": 300, "budget_s": 90, "run_timeout_s": 400},
+            "thorough": {"runs": 5000, "budget_s": 1200, "run_timeout_s": 900}},
     "C10": {"quick": {"runs": 200, "budget_s": 100, "run_timeout_s": 500},
             "thorough": {"runs": 3000, "budget_s": 1500, "run_timeout_s": 1200}},
     "C09": {"quick": {"runs": 200, "budget_s": 100, "run_timeout_s": 400},
@@ -53,6 +55,22 @@ TM_RULE = ("case = (generated program, argument, seeded history of trace transit
            "or a fault fired")
 
 META = {
+    "C08": {"LEVEL": "exploration",
+            "RULE": "case = (i) generated per-lane function (deterministic code, log-density sites, TRACER echo/keyprobe sites, real normals with "
+                    "tiny scale, sample_shape sites, unmapped higher-rank parameters, keyword parameters, scan / cond / nested modular_vmap) x axis "
+                    "specification in {0, 1, -1, None+axis_size, tuple, nested tuple, dict pytree, bare int} x optional outer modular_vmap x "
+                    "eager/jit; or (ii) generated model wrapped by .vmap (tuple / int in_axes) or .repeat and driven through simulate, assess, "
+                    "generate, update, regenerate; distinct = distinct (part, axis spec, statement set, sizes / model shape); non-trivial = >= 2 lanes",
+            "COMPONENTS": {"real": ["genjax.pjax.ModularVmap, sampler and log-density batch rules, static_dim_length", "genjax.core.Vmap (all five GFI methods)",
+                                    "jax.vmap (reference layout of the deterministic skeleton)"],
+                           "stub": ["TRACER leaf samplers (echo / keyprobe) built with the public tfp_distribution contract",
+                                    "part (ii): Seed key splitting and leaf samplers (SCRIPTED)", "sim/jaxcompat.py"], "regimes": "TRACER + REAL + SCRIPTED"},
+            "ASSUMPTIONS": COMMON_ASSUME + ["jax.vmap of the deterministic skeleton defines the reference shape / layout",
+                                            "echo draws reveal the parameter cell they were paired with (cells of width 1, lane parameters 1 apart)"],
+            "REQUIRED_PROBES": {"quick": ["part_mv", "part_comb", "echo_cells", "op_regenerate", "spec_pos1", "spec_dict"],
+                                "thorough": ["part_mv", "part_comb", "echo_cells", "kp_lanes", "op_regenerate", "spec_pos1", "spec_posm1", "spec_dict",
+                                             "spec_int0", "spec_none", "spec_nested_tuple", "nested_outer", "st_echo_ss", "st_normal_rank",
+                                             "st_inner_mv", "st_kw", "wrap_int0", "wrap_repeat"]}},
     "C10": {"LEVEL": "exploration",
             "RULE": "case = one of: machine (generated chain model, N in 1..4, seeded history of init / extend / resample / rejuvenate / change "
                     "under reference-sampled scripts); tree (discrete HMM step model with feedback, N in 1..3, T <= 3, default or custom "
@@ -242,6 +260,8 @@ META = {
 
 DST = "deterministic simulation with fault injection"
 CLAIMS = {
+    "C08": dict(text="TRACER sites under the real ModularVmap show, per lane, which parameter cell each draw was paired with and which key it got; layouts compared with jax.vmap of the deterministic skeleton for generated axis specifications; Vmap/repeat combinators checked lane by lane against the reference for all five GFI methods",
+                ref="DESIGN.md 4 C08", note="bounded sizes (<=4 lanes, depth 2); jax.vmap layout trusted", technique=DST + " (TRACER randomness seam under the real batching rules; SCRIPTED lane-wise reference)"),
     "C10": dict(text="SMC pipelines as histories of moves: per-particle weight identity against the reference along the ancestry after every move; complete outcome trees give E[exp(lml)] and E[exp(lml)*estimate(h)] exactly and compare them with brute-force evidence / posterior integrals after every step; rejuvenation_smc end-to-end by a two-stage test",
                 ref="DESIGN.md 4 C10", note="tiny discrete models for trees (K=M=2, N<=3, T<=3); chain models for the machine", technique=DST + " (SCRIPTED randomness seam: move histories + outcome-tree explorer; REAL key batches)"),
     "C09": dict(text="every internal draw of a kernel step is scripted: proposals compared with the reference proposal formulas, per-coordinate noise counted, the accept uniform placed either side of the reference threshold, rejected moves bit-identical; complete outcome trees give the exact mh transition matrix, checked for detailed balance and invariance against the reference posterior",
